@@ -1350,9 +1350,34 @@ func c06Arms(c *Ctx, rule string) {
 				}
 				wantOuter := map[string]types.Object{"LEFT_JOIN": lRows, "RIGHT_JOIN": rRows}[cst.Name()]
 				outerOK := false
+				// the outermost range loops of the arm, wherever they sit (directly in the clause, or inside the
+				// block a substituted helper leaves behind)
+				var outerLoops []*ast.RangeStmt
+				var walkOuter func(n ast.Node)
+				walkOuter = func(n ast.Node) {
+					ast.Inspect(n, func(y ast.Node) bool {
+						if y == nil || y == n {
+							return true
+						}
+						switch z := y.(type) {
+						case *ast.RangeStmt:
+							outerLoops = append(outerLoops, z)
+							return false
+						case *ast.ForStmt, *ast.FuncLit:
+							return false
+						}
+						return true
+					})
+				}
 				for _, st := range cc.Body {
-					rs, ok := st.(*ast.RangeStmt)
-					if !ok || objOf(rs.X) != wantOuter {
+					if rs, ok := st.(*ast.RangeStmt); ok {
+						outerLoops = append(outerLoops, rs)
+						continue
+					}
+					walkOuter(st)
+				}
+				for _, rs := range outerLoops {
+					if objOf(rs.X) != wantOuter {
 						continue
 					}
 					outerOK = true
